@@ -528,11 +528,20 @@ func execC03bCheck(a []string, withBlock bool) Result {
 	} else if sq.QueryInfo != nil && sq.QueryInfo.QValDte != nil {
 		needles = [][]byte{[]byte(sq.QueryInfo.QValDte.StringVal)}
 	}
+	// a quoted NUMBER against a named column is a numeric comparison (by value, kernel suite cmpk): the bloom model only
+	// says WHEN that is the case (the number grammar); the record-level soundness check below still runs on the real code
+	numeric := sq.MatchFilter == nil && sq.QueryInfo != nil && sq.QueryInfo.QValDte != nil && sq.QueryInfo.QValDte.IsNumeric()
+	if numeric {
+		cname = "number"
+	}
 	tags = append(tags, "crit:"+cname)
 	if ci {
 		tags = append(tags, "ci")
 	}
 	out := fmt.Sprintf("crit=%s %s neg=%s", cname, c03bProbeStr(keys, orig, wild, bop), c03bBit(neg))
+	if numeric {
+		out = "crit=number"
+	}
 	if !withBlock {
 		return Result{Out: out, Tags: tags}
 	}
@@ -588,6 +597,9 @@ func execC03bCheck(a []string, withBlock bool) Result {
 		tags = append(tags, "check:block-skipped")
 	}
 	res.Out = fmt.Sprintf("%s rec=%s pass=%s%s%s", out, bitsS, c03bBit(passR), c03bBit(passU), note)
+	if numeric {
+		res.Out = out
+	}
 	res.Tags = tags
 	res.Nontrivial = true
 	return res
